@@ -350,6 +350,11 @@ CORPUS = [
     ("A [c 'cmd 252 0' d]2", "raw-cmd"), ("A 'cmd 250 0' c 'cmd 251 2'", "raw-cmd"), ("A 'cmd 250' c", "raw-cmd"), ("A 'cmd 245 0' c", "raw-cmd"), ("A 'cmd 255 0' c 'cmd 251 1'", "raw-cmd"),
     ("A 'cmd 254 7' c", "raw-cmd"), ("A 'cmd 254 300' c", "raw-cmd"), ("A 'cmd 225 9' c", "raw-cmd"), ("A 'cmd 235 1' c", "raw-cmd"), ("A 'cmd' c", "raw-cmd"), ("A 'cmd x y' c", "raw-cmd"),
     ("A 'cmd 253 1' c", "raw-cmd"), ("A 'cmd 232 4' c", "raw-cmd"), ("A 'cmd 240 2' c", "raw-cmd"), ("G 'cmd 251 2' c", "raw-cmd"), ("A *100\n*100 'cmd 251 2' c", "raw-cmd"),
+    # PSG envelopes with levels, slide targets and lengths outside their ranges, played on a PSG channel
+    # (the VGM driver indexes the attenuation table with the stored level)
+    ("@1 psg 5>29:1 0\nG @1 o4 c d", "psg-range"), ("@1 psg 99 3\nG @1 o4 c", "psg-range"), ("@1 psg -3>40:5\nG @1 o4 c", "psg-range"),
+    ("@1 psg 15>0:300\nG @1 o4 c1 c1", "psg-range"), ("@1 psg 0>255:2 / 16>31:2\nH @1 o3 c", "psg-range"), ("@1 psg 15:0 14:999999\nG @1 c", "psg-range"),
+    ("@1 psg 15>-1:3 | 20\nG @1 o4 c", "psg-range"), ("@1 psg 2147483647 >\nG @1 c", "psg-range"),
     ("A t150 o4l4 @1 cdef\n" + FM_OK, "ordinary"), ("G o4l4 cdef\nH o3 l8 cdefgab\nJ c4 r4", "ordinary"), ("ABCDEF o4 l4 cdefg", "ordinary"),
 ]
 
